@@ -5,3 +5,5 @@ import GontainerModel.Props.C17
 #print axioms GM.C17.stub_init_same
 #print axioms GM.C17.stub_constraint
 #print axioms GM.C17.stub_has_no_helpers
+#print axioms GM.C17.verdict_mode_independent_partial
+#print axioms GM.C17.exit_mode_independent_partial
